@@ -178,6 +178,93 @@ func runC07(w *World, r *Report) {
 			return false
 		}
 	}
+	// an edge leaves the to-validate list only once one of its two ends is typed: the removal in updateToValidateMap is
+	// reached, within one iteration, only past the non-nil side of a test of getNodeOutputType / getNodeInputType
+	{
+		gOut, gIn := w.Fn("compose", "graph.getNodeOutputType"), w.Fn("compose", "graph.getNodeInputType")
+		fromTypeCall := func(v ssa.Value) bool {
+			seen := map[ssa.Value]bool{}
+			var rec func(v ssa.Value) bool
+			rec = func(v ssa.Value) bool {
+				if seen[v] {
+					return false
+				}
+				seen[v] = true
+				switch x := v.(type) {
+				case *ssa.Call:
+					sc := staticCallee(x)
+					return sc == gOut || sc == gIn
+				case *ssa.Phi:
+					for _, e := range x.Edges {
+						if rec(e) {
+							return true
+						}
+					}
+				}
+				return false
+			}
+			return rec(v)
+		}
+		nonNilEdge := map[[2]*ssa.BasicBlock]bool{}
+		ntests := 0
+		instrs(updTV, func(in ssa.Instruction) {
+			iff, ok := in.(*ssa.If)
+			if !ok {
+				return
+			}
+			op, a, b, ok := asCmp(iff.Cond)
+			if !ok || !(isNilConst(a) || isNilConst(b)) {
+				return
+			}
+			v := a
+			if isNilConst(a) {
+				v = b
+			}
+			if !fromTypeCall(v) {
+				return
+			}
+			ntests++
+			blk := iff.Block()
+			if op == token.EQL {
+				nonNilEdge[[2]*ssa.BasicBlock{blk, blk.Succs[1]}] = true
+			} else {
+				nonNilEdge[[2]*ssa.BasicBlock{blk, blk.Succs[0]}] = true
+			}
+		})
+		var removals []ssa.Instruction
+		for _, in := range writesOf(updTV, "toValidateMap") {
+			if _, ok := in.(*ssa.MapUpdate); ok {
+				removals = append(removals, in)
+			}
+		}
+		if len(removals) == 0 || ntests < 2 {
+			undecidedf("C07.validate-before-commit: updateToValidateMap: %d removals from toValidateMap, %d nil-tests of node types", len(removals), ntests)
+		}
+		for _, rm := range removals {
+			var inner *loopInfo
+			for _, li := range naturalLoops(updTV) {
+				li := li
+				if li.body[rm.Block()] && (inner == nil || len(li.body) < len(inner.body)) {
+					inner = &li
+				}
+			}
+			if inner == nil {
+				undecidedf("C07.validate-before-commit: the removal from toValidateMap is not in a loop")
+			}
+			bad, wit := false, ""
+			for _, sb := range inner.header.Succs {
+				if !inner.body[sb] {
+					continue
+				}
+				q := pathQuery{fn: updTV, goal: func(in ssa.Instruction) bool { return in == rm },
+					avoidEdge: func(a, b *ssa.BasicBlock) bool { return nonNilEdge[[2]*ssa.BasicBlock{a, b}] || b == inner.header }}
+				if ok, w2 := pathFromBlock(q, sb); ok {
+					bad, wit = true, w2
+				}
+			}
+			r.Check(!bad, "C07.validate-before-commit", "updateToValidateMap: an edge is taken off the to-validate list only when one end is typed", rm.Pos(), "every in-iteration path to the removal takes the non-nil side of a node-type test", "an edge between two still-untyped nodes (pass-through to pass-through) is dropped from the list: when the types become known later nobody compares them — a type-incompatible chain through pass-through nodes compiles and the mismatch surfaces (or panics) at run time: "+wit)
+		}
+	}
 	{
 		ws := writesOf(addEdge, "dataEdges")
 		if len(ws) == 0 {
@@ -560,6 +647,37 @@ func runC07(w *World, r *Report) {
 					"a value can leave the run-time checker without having been asserted to the consumer's type (e.g. a nil fast path): it reaches a concretely typed node / branch condition and panics there instead of the connection reporting an ordinary 'runtime type check fail' error")
 			})
 		}
+	}
+	// the stream half has no way round either: whatever defaultStreamConverter returns is the converting wrapper
+	{
+		f := w.Fn("compose", "defaultStreamConverter")
+		var convs []*ssa.Call
+		instrs(f, func(in ssa.Instruction) {
+			if c, ok := in.(*ssa.Call); ok {
+				if sc := staticCallee(c); sc != nil && origin(sc).Name() == "StreamReaderWithConvert" {
+					convs = append(convs, c)
+				}
+			}
+		})
+		if len(convs) == 0 {
+			undecidedf("C07.converter-is-checker: defaultStreamConverter does not call schema.StreamReaderWithConvert")
+		}
+		n := 0
+		instrs(f, func(in ssa.Instruction) {
+			ret, ok := in.(*ssa.Return)
+			if !ok || len(ret.Results) != 1 {
+				return
+			}
+			n++
+			okd := false
+			for _, c := range convs {
+				if derivesFrom(returnedValue(ret, 0), c) {
+					okd = true
+				}
+			}
+			r.Check(okd, "C07.converter-is-checker", fmt.Sprintf("defaultStreamConverter: return #%d hands back the checking wrapper", n), ret.Pos(), "the returned reader derives from StreamReaderWithConvert(…, v.(T))",
+				"a stream can leave the run-time checker as it came (a fast path on the reader's chunk type, nil-ness, …): the chunk type of the OBJECT travelling over an interface-declared edge is whatever the producer made — a pass-through or a sub-graph with an `any` input forwards a StreamReader[string] untouched — so a non-assignable stream reaches the concretely typed consumer and panics there in Stream / Transform mode while Invoke reports the ordinary 'runtime type check fail' error")
+		})
 	}
 	// pass-through nodes: a state handler on a node whose own type is only inferred later must be typed `any` exactly
 	// (the handler is never re-checked against the inferred type)
